@@ -12,7 +12,7 @@ def observe_pairs(rvh, wd, pairs, name):
     for i, (ta, tb) in enumerate(pairs):
         hc.append({"id": 2 * i + 1, "mode": "observe", "text": ta, "want": ["nodes", "errors", "lints"]})
         hc.append({"id": 2 * i + 2, "mode": "observe", "text": tb, "want": ["nodes", "errors", "lints"]})
-    tp, evs = run_harness(rvh, hc, wd, name)
+    tp, evs = run_harness_par(rvh, hc, wd, name)
     res = []
     for i in range(len(pairs)):
         side = []
